@@ -193,9 +193,9 @@ class FieldArrayModel(FieldCompositeModel):
         return result_bits
         
     def build_sum_expr(self, btor, ctx_width=-1):
-        if self.sum_expr_btor is None:
-            self.sum_expr_btor = self.get_sum_expr().build(btor, ctx_width)
-        return self.sum_expr_btor
+        # Built for each use: the width of the node depends on the 
+        # context the sum is used in
+        return self.get_sum_expr().build(btor, ctx_width)
     
     def get_product_expr(self):
         if self.product_expr is None:
@@ -218,9 +218,7 @@ class FieldArrayModel(FieldCompositeModel):
         return self.product_expr
         
     def build_product_expr(self, btor, ctx_width=-1):
-        if self.product_expr_btor is None:
-            self.product_expr_btor = self.get_product_expr().build(btor, ctx_width)
-        return self.product_expr_btor    
+        return self.get_product_expr().build(btor, ctx_width)
         
     def dispose(self):
         super().dispose()
